@@ -815,10 +815,15 @@ static scpi_bool_t ParamSignToUInt32(scpi_t * context, scpi_parameter_t * parame
         case SCPI_TOKEN_DECIMAL_NUMERIC_PROGRAM_DATA:
         case SCPI_TOKEN_DECIMAL_NUMERIC_PROGRAM_DATA_WITH_SUFFIX:
             if (sign) {
-                return strBaseToInt32(parameter->ptr, (int32_t *) value, 10) > 0 ? TRUE : FALSE;
+                if (strBaseToInt32(parameter->ptr, (int32_t *) value, 10) == 0) {
+                    *value = 0; /* no digit before the decimal point (".5") - the integer part is zero */
+                }
             } else {
-                return strBaseToUInt32(parameter->ptr, value, 10) > 0 ? TRUE : FALSE;
+                if (strBaseToUInt32(parameter->ptr, value, 10) == 0) {
+                    *value = 0; /* no digit before the decimal point (".5") - the integer part is zero */
+                }
             }
+            return TRUE;
         default:
             return FALSE;
     }
@@ -849,10 +854,15 @@ static scpi_bool_t ParamSignToUInt64(scpi_t * context, scpi_parameter_t * parame
         case SCPI_TOKEN_DECIMAL_NUMERIC_PROGRAM_DATA:
         case SCPI_TOKEN_DECIMAL_NUMERIC_PROGRAM_DATA_WITH_SUFFIX:
             if (sign) {
-                return strBaseToInt64(parameter->ptr, (int64_t *) value, 10) > 0 ? TRUE : FALSE;
+                if (strBaseToInt64(parameter->ptr, (int64_t *) value, 10) == 0) {
+                    *value = 0; /* no digit before the decimal point (".5") - the integer part is zero */
+                }
             } else {
-                return strBaseToUInt64(parameter->ptr, value, 10) > 0 ? TRUE : FALSE;
+                if (strBaseToUInt64(parameter->ptr, value, 10) == 0) {
+                    *value = 0; /* no digit before the decimal point (".5") - the integer part is zero */
+                }
             }
+            return TRUE;
         default:
             return FALSE;
     }
